@@ -236,14 +236,15 @@ def hist_case(draw):
     for _ in range(draw(st.integers(1, 4))):
         kind = draw(st.sampled_from(["rate", "data", "shift", "dtype", "same", "form"]))
         steps.append([kind, draw(st.sampled_from([2.0, 0.5, 4.0, 3.0, -1.0])), draw(st.integers(0, 2**31 - 1))])
-    return {"base": base, "steps": steps}
+    return {"base": base, "steps": steps, "one_object": draw(st.booleans())}
 
 
 def run_hist(case, stt):
     import copy
 
     cur = copy.deepcopy(case["base"])
-    run_ts(cur, stt)
+    one = G.OneObject(case.get("one_object", False), cur["sig"])
+    one.run(run_ts, cur, stt)
     for kind, fac, seed in case["steps"]:
         cur = copy.deepcopy(cur)
         if kind == "rate":
@@ -261,8 +262,9 @@ def run_hist(case, stt):
             f = cur["shift"]["form"]
             cur["shift"]["form"] = {"float": "time", "time": "float", "arr": "arr_time", "arr_time": "arr", "arr0": "time",
                                     "int": "time", "list": "arr", "npint": "float", "npfloat32": "float"}[f]
-        run_ts(cur, stt)
+        one.run(run_ts, cur, stt)
         stt.label("hist_" + kind)
+    stt.label("one_object_reassigned" if one.reused > 1 else "fresh_objects")
     stt.nt(len(case["steps"]) >= 2)
 
 
